@@ -329,9 +329,8 @@ Section Lib.
   Definition canon (ns : list str) (d : dict) : dict :=
     flat_map (fun n => match get n d with Some v => [(n, v)] | None => [] end) ns.
 
-  (* parse_parameter_strings; [d] = default_parameters *)
-  Definition parse (T : table) (d : dict) (s : str) : res dict :=
-    let parts := tokenise s in
+  (* parse_parameter_strings on the token list; [d] = default_parameters *)
+  Definition parse_toks (T : table) (d : dict) (parts : list str) : res dict :=
     if (length parts <? 2)%nat then Err
     else if negb (str_eqb (lower (hd [] parts)) (t_iface T)) then Err
     else
@@ -348,6 +347,8 @@ Section Lib.
               else Err
           end
       end.
+
+  Definition parse (T : table) (d : dict) (s : str) : res dict := parse_toks T d (tokenise s).
 
   (* Cls( **attrs ): every key must be a constructor parameter; every parameter needs a value *)
   Fixpoint fill (ctor : list (str * option value)) (attrs : dict) : option dict :=
@@ -415,17 +416,20 @@ Section Lib.
   Definition find_entry (E : list entry) (iface : str) : option entry :=
     find (fun e => str_eqb (t_iface (e_tbl e)) iface) E.
 
-  (* create_transport(s, d) *)
-  Definition create (E : list entry) (d : dict) (s : str) : res transport :=
-    let parts := tokenise s in
+  (* create_transport on the token list *)
+  Definition create_toks (E : list entry) (d : dict) (parts : list str) : res transport :=
     if (length parts <? 2)%nat then Err
     else match find_entry E (lower (hd [] parts)) with
          | None => Err
-         | Some e => match parse (e_tbl e) d s with
+         | Some e => match parse_toks (e_tbl e) d parts with
                      | Err => Err
                      | Ok attrs => build e attrs
                      end
          end.
+
+  (* create_transport(s, d): the behaviour of the code as it is (for a repeated keyword the last
+     value wins, surplus fields are ignored, ...) *)
+  Definition create (E : list entry) (d : dict) (s : str) : res transport := create_toks E d (tokenise s).
 End Lib.
 
 (* ---------------------------------------------------------------------------------------------
@@ -499,9 +503,11 @@ Definition q_kw (ks : list param) (part : str) : list (N * str) :=
 Definition q_defaults (d : dict) : list (N * str) :=
   flat_map (fun kv => match snd kv with VStr s => [(3, s)] | _ => [] end) d.
 
-Definition queries (T : table) (d : dict) (s : str) : list (N * str) :=
-  let ps := tl (tokenise s) in
+Definition queries_toks (T : table) (d : dict) (toks : list str) : list (N * str) :=
+  let ps := tl toks in
   q_pos (t_pos T) (filter is_pos ps) ++ flat_map (q_kw (t_kw T)) (filter is_kw ps) ++ q_defaults d.
+
+Definition queries (T : table) (d : dict) (s : str) : list (N * str) := queries_toks T d (tokenise s).
 
 (* ---------------------------------------------------------------------------------------------
    Shapes of regenerated entries that the instance theorems need (generated obligations)
@@ -534,3 +540,125 @@ Definition host_first (e : entry) : bool :=
   | p :: _ => str_eqb (pname p) n_host && ty_eqb (pty p) TStr
   | [] => false
   end.
+
+(* ---------------------------------------------------------------------------------------------
+   What the property leaves OPEN, and the set of outcomes it allows.
+
+   The property fixes: only the descriptor error escapes; a transport carries exactly the values the
+   string gives, defaults fill only what the string omits; bracketed IPv6 hosts, hexadecimal
+   identifiers and listed resources parse back.  It does not fix
+     (1) which value counts when one descriptor gives the SAME keyword several times: any ONE of the
+         given values is faithful, and so is refusing the descriptor;
+     (2) whether a descriptor outside the documented, unambiguous form is accepted at all: refusing it
+         with the descriptor error is as good as what the code does today.  Outside = not [strict]
+         (it is not the plain rendering iface:part:...:[part with ':']:... of its own fields: leading,
+         trailing or doubled ':', text after a bracket group, a group closed by '$', brackets around a
+         part that needs none, a bracket group containing ']' / '$' / newline), more fields without '='
+         than the interface has positional parameters, or a number not written canonically
+         (-?digits without leading zeros; 0x + hex digits; -?digits[.digits]).
+   [allowed] lists the outcomes: the code's own behaviour [create] first, then (1) and (2).  For a
+   strict, canonically written descriptor without a repeated keyword it is just [create]
+   (Proofs.allowed_tight): nothing is loosened there.
+   ------------------------------------------------------------------------------------------- *)
+Definition same_key (k : str) (part : str) : bool := is_kw part && str_eqb (key part) k.
+
+Fixpoint has_repeated (parts : list str) : bool :=
+  match parts with
+  | [] => false
+  | part :: r => (is_kw part && existsb (same_key (key part)) r) || has_repeated r
+  end.
+
+(* all ways of keeping exactly one part per keyword (chosen = keywords already decided) *)
+Fixpoint variants (chosen : list str) (parts : list str) : list (list str) :=
+  match parts with
+  | [] => [[]]
+  | part :: r =>
+      if is_kw part then
+        if mem (key part) chosen then variants chosen r
+        else map (cons part) (variants (key part :: chosen) r)
+             ++ (if existsb (same_key (key part)) r then variants chosen r else [])
+      else map (cons part) (variants chosen r)
+  end.
+
+Definition needs_bracket (p : str) : bool :=
+  existsb (N.eqb c_colon) p || match p with c :: _ => c =? c_lbr | [] => true end.
+Definition render_part (p : str) : str :=
+  if needs_bracket p then c_colon :: c_lbr :: p ++ [c_rbr] else c_colon :: p.
+Definition render (toks : list str) : str :=
+  match toks with [] => [] | i :: parts => i ++ flat_map render_part parts end.
+Definition bracket_clean (p : str) : bool := negb (existsb (fun c => is_close c || (c =? c_nl)) p).
+
+Definition strict (s : str) : bool :=
+  str_eqb (render (tokenise s)) s
+  && forallb (fun p => negb (needs_bracket p) || bracket_clean p) (tl (tokenise s)).
+
+Definition is_digit (c : N) : bool := (48 <=? c) && (c <=? 57).
+Definition is_hexdigit (c : N) : bool :=
+  is_digit c || ((97 <=? c) && (c <=? 102)) || ((65 <=? c) && (c <=? 70)).
+Definition canon_digits (s : str) : bool :=
+  match s with
+  | [] => false
+  | [c] => is_digit c
+  | c :: r => is_digit c && negb (c =? 48) && forallb is_digit r
+  end.
+Definition strip_minus (s : str) : str := match s with 45 :: r => r | _ => s end.
+Definition canon_int (s : str) : bool := canon_digits (strip_minus s).
+Definition canon_hex (s : str) : bool :=
+  match s with 48 :: 120 :: c :: r => forallb is_hexdigit (c :: r) | _ => false end.
+Fixpoint before_dot (s : str) : str :=
+  match s with [] => [] | c :: r => if c =? 46 then [] else c :: before_dot r end.
+Fixpoint after_dot (s : str) : option str :=
+  match s with [] => None | c :: r => if c =? 46 then Some r else after_dot r end.
+Definition canon_float (s : str) : bool :=
+  let u := strip_minus s in
+  canon_digits (before_dot u)
+  && match after_dot u with
+     | None => true
+     | Some f => negb (match f with [] => true | _ => false end) && forallb is_digit f
+     end.
+
+Definition noncanon_num (q : N * str) : bool :=
+  match fst q with
+  | 0 => negb (canon_int (snd q))
+  | 1 => negb (canon_hex (snd q))
+  | 2 => negb (canon_float (snd q))
+  | _ => false
+  end.
+
+(* (2): the descriptor error is an allowed answer besides what the code does *)
+Definition open_err (E : list entry) (s : str) : bool :=
+  let toks := tokenise s in
+  has_repeated (tl toks)
+  || negb (strict s)
+  || match find_entry E (lower (hd [] toks)) with
+     | None => false
+     | Some e => (length (t_pos (e_tbl e)) <? length (filter is_pos (tl toks)))%nat
+                 || existsb noncanon_num (queries_toks (e_tbl e) [] toks)
+     end.
+
+Section Allowed.
+  Variable py_int : str -> option Z.
+  Variable py_hex : str -> option Z.
+  Variable py_float : str -> option N.
+  Variable host_ok : str -> bool.
+  Variable localhost_ip : str.
+
+  Definition allowed (E : list entry) (d : dict) (s : str) : list (res transport) :=
+    create py_int py_hex py_float host_ok localhost_ip E d s
+    :: map (fun parts' => create_toks py_int py_hex py_float host_ok localhost_ip E d (hd [] (tokenise s) :: parts'))
+           (variants [] (tl (tokenise s)))
+    ++ (if open_err E s then [Err] else []).
+
+  (* the parse stage alone (TransportDescriptorParser.parse_parameter_strings) *)
+  Definition open_err_parse (T : table) (s : str) : bool :=
+    let toks := tokenise s in
+    has_repeated (tl toks) || negb (strict s)
+    || (length (t_pos T) <? length (filter is_pos (tl toks)))%nat
+    || existsb noncanon_num (queries_toks T [] toks).
+
+  Definition allowed_parse (T : table) (d : dict) (s : str) : list (res dict) :=
+    parse py_int py_hex py_float T d s
+    :: map (fun parts' => parse_toks py_int py_hex py_float T d (hd [] (tokenise s) :: parts'))
+           (variants [] (tl (tokenise s)))
+    ++ (if open_err_parse T s then [Err] else []).
+End Allowed.
